@@ -366,10 +366,11 @@ pub fn classify(p: &Prog, arg: &Arg, j: &Judged, cx: &mut Cx) -> Option<&'static
     {
         let plain = p.render(&arg.src, &Repair::default());
         let src = p.render(&arg.src, &Repair { unfold_rec: true, ..Default::default() });
-        if src != plain {
+        // N6 is about back-references: a value outside its inferred type is attributed to it only
+        // when that type actually mentions one (`μ`); a stuck run shows no type to look at
+        let mentions_backref = j.result_type.contains('μ') || !matches!(j.kind, Kind::NotInhabits);
+        if src != plain && mentions_backref {
             let r = judge(&src, cx);
-            // the unfolded program runs fine — or, when the original got *stuck*, the unfolded one
-            // is rejected (the access that got stuck only type-checked on the mis-resolved type)
             // the unfolded program runs fine, or is rejected: the original was accepted only on the
             // mis-resolved type (N6 is broad: any use of a type taken out of a recursive alias)
             if (r.kind.accepted() && !r.kind.fails()) || r.kind == Kind::Rejected {
